@@ -462,6 +462,7 @@ def execute(case):  # pylint: disable=too-many-locals,too-many-statements,too-ma
                     'reader_events_between_commit_and_unlink_end': shared.reader_events_in_window,
                     'scheduling_decisions': len(decisions),
                     'policy_' + case['policy'][0]: 1,
+                    **dict(SIM.probes),
                 },
                 'kinds': dict(SIM.kinds),
                 'decisions': decisions if not result['ok'] else None,
